@@ -9,3 +9,6 @@ import TeosVerif.Props.C06
 #print axioms Teos.C06.shared_locator_independent
 #print axioms Teos.C06.get_reads_own_key
 #print axioms Teos.C06.sub_lists_own_locators
+#print axioms Teos.C06.acceptedBy_authenticated
+#print axioms Teos.C06.accepted_origin
+#print axioms Teos.C06.every_held_appointment_was_submitted_by_its_owner
